@@ -572,7 +572,9 @@ def b_eigensolve(V, cfg):
         c = V.c
         # the module skips modes whose seeds are all zero: keep the generic branch (partial seeding has its own items)
         c.seed_nonzero = True
-        factor.register("eig", (wrap(np.asarray(W, dtype=object)), wrap(np.asarray(Q, dtype=object))))
+        factor.register("eig", (wrap(np.asarray(W, dtype=object)), wrap(np.asarray(Q, dtype=object)),
+                                np.array(np.asarray(A), dtype=object, copy=True),
+                                (np.array(np.asarray(B), dtype=object, copy=True) if B is not None else None)))
     return Setup(m, sigs, notes=["EigenSolve: A defined from free eigen-data (pre-image); LAPACK = oracle returning that data"])
 
 
